@@ -56,6 +56,7 @@ type TAbs struct {
 	OGMParts  []C09Part `json:"ogm_parts"`
 	Released  bool      `json:"released"`
 	StartAt   int64     `json:"start_at"`
+	NextBB    []int     `json:"next_bb,omitempty"`
 }
 
 func idOf(s string) int {
@@ -276,6 +277,9 @@ func (d *Drv) absOf(t *pt.Table) TAbs {
 	a := TAbs{Status: string(st.Status), GameCount: st.GameCount, SeatMap: append([]int{}, st.SeatMap...),
 		GPI: append([]int{}, st.GamePlayerIndexes...), Dealer: st.CurrentDealerSeat, SB: st.CurrentSBSeat, BB: st.CurrentBBSeat,
 		EndAt: st.CurrentActionEndAt, HasGame: st.GameState != nil, StartAt: st.StartAt}
+	for _, id := range st.NextBBOrderPlayerIDs {
+		a.NextBB = append(a.NextBB, idOf(id))
+	}
 	if st.GameState != nil {
 		a.Event = st.GameState.Status.CurrentEvent
 		a.Round = st.GameState.Status.Round
